@@ -35,6 +35,10 @@ Ok(cond, e, why) == IF cond THEN TRUE ELSE Bad(e, why)
 Put(f, k, v) == [x \in DOMAIN f \cup {k} |-> IF x = k THEN v ELSE f[x]]
 Range(s) == {s[i] : i \in DOMAIN s}
 Run(s, from) == \A i \in 1..Len(s) : s[i] = from + i
+\* fragment length 0 (only reachable through the package API): sub-100 ms fragments are dropped by design together with their
+\* frames, so between segments frames may be missing - but never duplicated, reordered or missing inside a segment
+Run0(s, from) == s = <<>> \/ (s[1] > from /\ \A i \in 1..Len(s) - 1 : s[i + 1] = s[i] + 1)
+Follows(s, from) == IF F = 0 THEN Run0(s, from) ELSE Run(s, from)
 Min(a, b) == IF a < b THEN a ELSE b
 \* the first source time stamp found in a segment
 FirstPts(k) == LET ps == {vp[i] : i \in {j \in Range(k.v) : j \in DOMAIN vp}} \cup {ap[i] : i \in {j \in Range(k.a) : j \in DOMAIN ap}}
@@ -64,8 +68,8 @@ Next ==
                  /\ Ok(e.bad = <<>>, e, "C10:segment-is-not-a-valid-transport-stream")
                  /\ Ok(e.intact /\ e.pts_ok, e, "C10:segment-does-not-carry-the-source-frames-faithfully")
                  /\ Ok(e.prefix, e, "C10:access-unit-prefix (AUD, SPS/PPS before key frames)")
-                 /\ Ok(Run(e.v, lastv), e, "C10:video-frames-lost-duplicated-or-reordered-across-segments")
-                 /\ Ok(Run(e.a, lasta), e, "C10:audio-frames-lost-duplicated-or-reordered-across-segments")
+                 /\ Ok(Follows(e.v, lastv), e, "C10:video-frames-lost-duplicated-or-reordered-across-segments")
+                 /\ Ok(Follows(e.a, lasta), e, "C10:audio-frames-lost-duplicated-or-reordered-across-segments")
                  /\ Ok(e.v # <<>> \/ e.a # <<>>, e, "C10:empty-segment")
                  /\ IF e.seq > 1 /\ e.fk = "non"
                     THEN \* the cause is named from the outside: how long the previous segment had been open
@@ -75,7 +79,7 @@ Next ==
                     ELSE TRUE
                  /\ known' = Put(known, e.seq, [hash |-> e.hash, v |-> e.v, a |-> e.a])
                  /\ maxSeq' = IF e.seq > maxSeq THEN e.seq ELSE maxSeq
-                 /\ lastv' = lastv + Len(e.v) /\ lasta' = lasta + Len(e.a)
+                 /\ lastv' = (IF e.v = <<>> THEN lastv ELSE e.v[Len(e.v)]) /\ lasta' = (IF e.a = <<>> THEN lasta ELSE e.a[Len(e.a)])
                  /\ UNCHANGED <<F, mem, path, vp, ap, cw, everOk, pend, opened>>
        [] e.e = "win" ->
             /\ Ok(Len(e.seqs) = Min(3, maxSeq) /\ Run(e.seqs, maxSeq - Len(e.seqs)), e,
